@@ -5,5 +5,5 @@ CONSTANTS
   Ws = {0, 1, 2, 3}
   BuildWs = {0, 1, 99, 100}
   BuildLen = 4
-INVARIANTS ExactlyOneMember ZeroNeverUsed AllZeroIsError Proportional OverflowAtBuild Emit
+INVARIANTS ExactlyOneMember ZeroNeverUsed AllZeroIsError Proportional ScaleInvariant OverflowAtBuild Emit
 CHECK_DEADLOCK FALSE
